@@ -5,7 +5,8 @@ the `hchain1 / hchain2 / hcard` hypotheses of C15).  This file discharges those 
 instances that now exist, and proves the glue lemmas used by the composition properties C14
 (`PP/Props/C14.lean`) and C06 (`PP/Props/C06.lean`):
 
-* `fq2FieldHyp`, `instLawfulSqrtOpsFq2`, `fq2FieldAgrees`, `hchain1`, `hchain2`, `hcard`;
+* (`PP/Proofs/AssemblyFq2.lean`: `fq2FieldHyp`, `instLawfulSqrtOpsFq2`, `g2_no_two_torsion`;)
+* `fq2FieldAgrees`, `hchain1`, `hchain2`, `hcard`;
 * `Jac.abs_scale`: rescaling a Jacobian triple does not change the point it denotes;
 * `sswu_neg`: the RFC relation `IsSswu` at `u` and at `−u` (`u ≠ 0`) gives opposite points;
 * G1: `sswuG1_onE'`, `isoSswuG1_onCurve` (the image `iso11 (osswuG1 u)` is a point of `E`),
@@ -17,6 +18,7 @@ instances that now exist, and proves the glue lemmas used by the composition pro
 What stays a hypothesis everywhere downstream: the order/exponent of the curve groups (`hexp`,
 `hord` of C17) and — not needed for C14/C06 as stated — the homomorphism law of the isogenies.
 -/
+import PP.Proofs.AssemblyFq2
 import PP.Proofs.Tower
 import PP.Proofs.GroupModelInst
 import PP.Props.C15
@@ -31,14 +33,6 @@ namespace PP
 open WeierstrassCurve.Affine
 
 /-! ## instances and hypothesis witnesses -/
-
-/-- the hypotheses of the `Fq2.sqrt` proof hold for the tower's `Field Fq2` -/
-theorem fq2FieldHyp : @Fq2Sqrt.FieldHyp Fq2.instField :=
-  ⟨fun _ _ => rfl, fun _ _ => rfl, fun _ => rfl, rfl, rfl, Fq2.pow_card_sub_one',
-    Fq2.frobeniusMap_one_eq_pow⟩
-
-/-- `Fq2::sqrt` and the order on `Fq2` are lawful (C18, unconditional) -/
-instance instLawfulSqrtOpsFq2 : LawfulSqrtOps Fq2 := Fq2Sqrt.lawfulSqrtOps_of fq2FieldHyp
 
 /-- the tower's field structure on `Fq2` is built on the model's operations -/
 theorem fq2FieldAgrees : Iso.Fq2FieldAgrees Fq2.instField := ⟨rfl, rfl, rfl, rfl, rfl⟩
@@ -340,25 +334,5 @@ theorem map2ToCurveG2_eq {u0 u1 : Fq2} {P0 P1 : Jac Fq2} (hP0 : osswuG2 u0 = som
   unfold map2ToCurveG2; rw [hP0, hP1]; rfl
 
 end G2
-
-/-! ## no 2-torsion on the twist (used by C05: compressed encodings of G2 round-trip) -/
-
-theorem neg_g2b_pow_third_fast :
-    fastPow (-g2Codec.b) ((Gen.q * Gen.q - 1) / 3) ≠ 1 := by decide +kernel
-
-/-- `E₂ : y² = x³ + 4(1+u)` has no point of order 2 over `Fq2`: `−4(1+u)` is not a cube -/
-theorem g2_no_two_torsion (x : Fq2) : x * x * x + g2Codec.b ≠ 0 := by
-  intro h
-  have h3 : x ^ 3 = -g2Codec.b := by linear_combination h
-  have hx : x ≠ 0 := by
-    rintro rfl
-    apply g2Codec_b_ne_zero
-    have : -g2Codec.b = 0 := by rw [← h3]; simp
-    exact neg_eq_zero.mp this
-  apply neg_g2b_pow_third_fast
-  rw [fastPow_eq _ _ (lt_of_le_of_lt (Nat.div_le_self _ _) Fq2.q_sq_sub_one_lt)]
-  obtain ⟨k, hk⟩ := Fq2.three_dvd
-  rw [← h3, ← pow_mul, hk, Nat.mul_div_cancel_left _ (by norm_num), ← hk]
-  exact Fq2.pow_card_sub_one x hx
 
 end PP
